@@ -15,7 +15,7 @@ ASSUMPTIONS = ["reference renderer/parser vf/ref/asm.py", "opcode names are the 
 NSHARDS = {"quick": 32, "thorough": 64}
 BUDGET_S = {"quick": 200, "thorough": 1800}
 MIN_HITS = {
-    'quick': {"exh2": 71442, "grammar": 800, "ws": 1360, "xasm": 79360, "digit_push": 34805, "reject_case": 163, "accept_case": 220, "conditional": 25788},
+    'quick': {"exh2": 71442, "grammar": 800, "ws": 1360, "xasm": 79360, "digit_push": 34805, "reject_case": 356, "accept_case": 219, "conditional": 25788},
     'thorough': {"exh2": 85730, "grammar": 192000, "ws": 325530, "xasm": 277957, "digit_push": 111679, "reject_case": 46023, "accept_case": 69177, "conditional": 127284, "push>=65536": 5353},
 }
 SEPS = [" ", "  ", "     ", " \n ", " \r\n ", " \n\n ", " \t ", "\n ", " \n", " \r\n", "\t "]
@@ -77,6 +77,13 @@ def cases(ctx):
         bad = r.choice(["abc", "0x51", "OP_FOO", "OP_1X", "zz", "12345", "OP_", "51 5", "g0", "-1", "17", "OP_CHECKSIGX", "1a2", "OP_DUP,", "0b", "op_dup", "Op_Dup", "OP_dup", "op_if", "op_1", "oP_cHECKSIG", "op_0", "OP_endif"])
         j = r.randrange(len(good) + 1)
         yield {"k": "text", "text": " ".join(good[:j] + [bad] + good[j:]), "expect": "reject"}
+        # invisible characters that are NOT whitespace (byte-order mark, zero-width space/joiner, soft hyphen, NUL), alone or glued to
+        # an otherwise valid token, at the very start, in the middle and at the very end of the text
+        inv = r.choice(["\ufeff", "\u200b", "\u2060", "\u00ad", "\x00", "\u200d"])
+        g0 = r.choice(good)
+        bad2 = r.choice([inv, inv + g0, g0 + inv, g0[: len(g0) // 2] + inv + g0[len(g0) // 2 :]])
+        j2 = [0, len(good), r.randrange(len(good) + 1)][i % 3]
+        yield {"k": "text", "text": " ".join(good[:j2] + [bad2] + good[j2:]), "expect": "reject", "invisible": True}
 
 
 def judge(ctx, case):
@@ -85,6 +92,8 @@ def judge(ctx, case):
         ref = asm.parse(text)
         r = ctx.call({"op": "asm_parse", "text": text})
         ctx.ev()
+        if case.get("invisible"):
+            ctx.hit("invisible_character")
         if ref is None:
             ctx.hit("reject_case")
             ctx.nontrivial()
@@ -128,6 +137,8 @@ def judge(ctx, case):
     alias_collision = [t for t in toks if t[0] == "push" and len(t[1]) == 1 and 0x10 <= t[1][0] <= 0x16]
     if o["asm"] != exp_asm:
         ctx.viol("to_asm_string differs from the reference rendering", {"hex": case["hex"][:200], "got": o["asm"][:200], "exp": exp_asm[:200]})
+    if o.get("impl_eq") is False:
+        ctx.viol("to_asm_string_impl differs from to_asm_string / to_extended_asm_string", {"hex": case["hex"][:200]})
     # 2. round trip
     ctx.ev()
     rt = o["rt"]
